@@ -154,6 +154,25 @@ def work_dynamic(chunk, st):
                   fails = [(c, n, t) for c, n, lv, t in report.json_findings(json.loads(res.stdout)) if lv == 'fail']
               if fails:
                   st.violation('peer-built-from-policy-shows-failure:%s' % vname, {'policy': pname, 'fmt': fmt, 'variant': vname, 'failures': fails[:5]})
+        # the same conformant peer as the second target of one invocation, after a weak twin of itself (1024-bit RSA keys and moduli, no
+        # strict-KEX marker): what the first target earned must not be charged to the second
+        if p['server_policy']:
+            weak_hk = {k: (wire.rsa_blob_tree(1024) if 'rsa' in k and '-cert-' not in k else v) for k, v in variants[0][2].items()}
+            weak_kex = [k for k in p['kex'] if not k.startswith('kex-strict-')]
+            for fmt in ('text', 'json'):
+                weak = P.Server(host_keys=weak_hk, gex=P.GexPolicy([1024], P.STRICT) if gex else None, **dict(variants[0][1], kex=weak_kex))
+                good = P.Server(host_keys=variants[0][2], gex=gex, **variants[0][1])
+                res, outs = H.audit_sequence([weak, good], opts=['-n', '--skip-rate-test'] + (['-j'] if fmt == 'json' else []))
+                st.execution(res.world, outcome=('policy-peer-after-weak', res.status, fmt), root=('policy-peer-after-weak', pname, fmt), nontrivial=('policy-peer-after-weak', pname, fmt))
+                if outs is None or len(outs) != 2:
+                    st.violation('peer-built-from-policy:after-weak-target:output-shape', {'policy': pname, 'fmt': fmt, 'stdout': res.stdout[-300:]})
+                    continue
+                if fmt == 'text':
+                    fails = [(c, n, t) for c, n, lv, t in report.TextReport(outs[1]).findings() if lv == 'fail']
+                else:
+                    fails = [(c, n, t) for c, n, lv, t in report.json_findings(outs[1]) if lv == 'fail']
+                if fails:
+                    st.violation('peer-built-from-policy-shows-failure:after-weak-target', {'policy': pname, 'fmt': fmt, 'failures': fails[:5]})
         st.sample({'policy': pname, 'audited_as': 'server' if p['server_policy'] else 'client'}, cap=6)
 
 
@@ -186,7 +205,8 @@ def run(tier, seed):
         PID, tier, seed, st, t0,
         rule='every entry of the SSH-2 rating database (shape, version strings, notes; broken-primitive tokens %s must carry a failure); every name in '
              'HOST_KEY_TYPES, RSA_FAMILY, KEX_TO_DHGROUP, the GEX table and the DHEat tables; every algorithm of every version of every built-in policy '
-             '(known to the DB, not rated fail); a peer synthesised from each of the %d built-in policies audited in text and JSON' % (
+             '(known to the DB, not rated fail); a peer synthesised from each of the %d built-in policies audited in text and JSON, alone and as the '
+             'second target of a -T run after a weak twin of itself' % (
                  [b[0] for b in BROKEN], len(BP)),
         assumptions=['the tables are finite: this is an exhaustive check of the current tree'],
         exhaustive=True, traces_validated=validated)
